@@ -8,8 +8,11 @@ use swift_mt_message::messages::{MT103, MT199, MT202, MT205};
 use swift_mt_message::SwiftParser;
 
 const LINES: &[&str] = &["/REJT/", "/RETN/", "/REJT/12", "/RETN/99", "/RJT/", "/RET/", "/rejt/", "/retn/", "REJT", "/REJT", "REJT/", "/ACC/X",
-    "/COV/", "/COVER/", "/cov/", "/INS/ABNANL2A", "//CONT /REJT/ X", "/INS/X/RETN/", "/BNF/TEXT", "/REJT/RETN/", "/RETURN/", "/REJECT/"];
+    "/COV/", "/COVER/", "/cov/", "/COVID/RELIEF", "/INS/COVEGB2LXXX", "/COV", "/RECOVER/X", "/COVER", "/BNF/REF/2024/REJT", "/BNF/REF/2024/RETN", "/INS/ABNANL2A", "//CONT /REJT/ X", "/INS/X/RETN/", "/BNF/TEXT", "/REJT/RETN/", "/RETURN/", "/REJECT/"];
 const MURS: &[Option<&str>] = &[None, Some("REF123"), Some("REJT"), Some("RETN"), Some("rejt"), Some("retn"), Some("PROJECTREJT01"), Some("XRETNX"), Some("REJ T"), Some("REJTRETN")];
+/// what follows sequence A of an MT202 and whether it makes the message a cover payment (a customer party 50a / 59a in sequence B)
+const SEQB: &[(&str, bool)] = &[("", false), (":50K:/123\nJOHN DOE\n:59:/456\nJANE DOE\n", true), (":33B:USD1000,00\n", false), (":70:TEXT ONLY\n", false),
+    (":59:/456\nJANE DOE\n", true), (":50K:/123\nJOHN DOE\n", true), (":52A:CHASUS33\n:33B:USD1000,00\n", false)];
 const FLAGS: &[Option<&str>] = &[None, Some("STP"), Some("REJT"), Some("RETN"), Some("COV"), Some("rejt"), Some("REMIT")];
 
 fn envelope(code: u32, mur: Option<&str>, flag: Option<&str>, body: &str) -> String {
@@ -24,22 +27,22 @@ fn envelope(code: u32, mur: Option<&str>, flag: Option<&str>, body: &str) -> Str
     s
 }
 
-fn body(code: u32, lines72: &[&str], seq_b: bool, b23: &str, with56: bool) -> String {
+fn body(code: u32, lines72: &[&str], seq_b: usize, b23: &str, with56: bool) -> String {
     let f72 = if lines72.is_empty() { String::new() } else { format!(":72:{}\n", lines72.join("\n")) };
     match code {
         103 => format!(":20:REF1\n:23B:{b23}\n:32A:240315USD1000,00\n:50K:/123\nJOHN DOE\n{}:59:/456\nJANE DOE\n:71A:SHA\n{}", if with56 { ":56A:CHASUS33\n:57A:DEUTDEFF\n" } else { "" }, f72).trim_end().to_string(),
-        202 => format!(":20:REF1\n:21:REL1\n:32A:240315USD1000,00\n:58A:DEUTDEFF\n{}{}", f72, if seq_b { ":50K:/123\nJOHN DOE\n:59:/456\nJANE DOE\n" } else { "" }).trim_end().to_string(),
+        202 => format!(":20:REF1\n:21:REL1\n:32A:240315USD1000,00\n:58A:DEUTDEFF\n{}{}", f72, SEQB[seq_b % SEQB.len()].0).trim_end().to_string(),
         205 => format!(":20:REF1\n:21:REL1\n:32A:240315USD1000,00\n:52A:CHASUS33\n:58A:DEUTDEFF\n{}", f72).trim_end().to_string(),
         _ => format!(":20:REF1\n:79:{}", if lines72.is_empty() { "NARRATIVE".to_string() } else { lines72.join("\n") }),
     }
 }
 
 /// independent statement of the classification rules (the oracle)
-fn spec(code: u32, lines: &[&str], mur: Option<&str>, flag: Option<&str>, seq_b: bool, stp: bool) -> (bool, bool, bool, &'static str) {
+fn spec(code: u32, lines: &[&str], mur: Option<&str>, flag: Option<&str>, seq_b: usize, stp: bool) -> (bool, bool, bool, &'static str) {
     let supports = [103, 202, 205].contains(&code);
     let rej = (supports && lines.iter().any(|l| l.contains("/REJT/"))) || mur.map(|m| m.contains("REJT")).unwrap_or(false);
     let ret = (supports && lines.iter().any(|l| l.contains("/RETN/"))) || mur.map(|m| m.contains("RETN")).unwrap_or(false);
-    let cov = match code { 202 => seq_b, 205 => lines.iter().any(|l| l.contains("/COV/") || l.contains("/COVER/")), _ => false };
+    let cov = match code { 202 => SEQB[seq_b % SEQB.len()].1, 205 => lines.iter().any(|l| l.contains("/COV/") || l.contains("/COVER/")), _ => false };
     let method = match code {
         103 => if rej { "reject" } else if ret { "return" } else if stp { "stp" } else { "normal" },
         202 | 205 => if rej || flag == Some("REJT") { "reject" } else if ret || flag == Some("RETN") { "return" } else if cov || flag == Some("COV") { "cover" } else { "normal" },
@@ -48,7 +51,7 @@ fn spec(code: u32, lines: &[&str], mur: Option<&str>, flag: Option<&str>, seq_b:
     (rej, ret, cov, method)
 }
 
-fn run_one(rep: &mut Report, plugins: &Plugins, code: u32, lines: &[&str], mur: Option<&str>, flag: Option<&str>, seq_b: bool, b23: &str, with56: bool) {
+fn run_one(rep: &mut Report, plugins: &Plugins, code: u32, lines: &[&str], mur: Option<&str>, flag: Option<&str>, seq_b: usize, b23: &str, with56: bool) {
     let text = envelope(code, mur, flag, &body(code, lines, seq_b, b23, with56));
     let t2 = text.clone();
     let r = std::panic::catch_unwind(move || -> Option<(bool, bool, bool, bool)> {
@@ -84,7 +87,7 @@ fn run_one(rep: &mut Report, plugins: &Plugins, code: u32, lines: &[&str], mur: 
     let opt = |o: Option<&str>| o.map(h).unwrap_or("~".into());
     let ascii_mur = mur.map(|m| m.is_ascii()).unwrap_or(true);
     if ascii_mur {
-        rep.model(format!("cls {code} {} {} {} {} {}", opt(mur), opt(flag), seq_b as u8, stp as u8, lines.iter().map(|l| h(l)).collect::<Vec<_>>().join(" ")),
+        rep.model(format!("cls {code} {} {} {} {} {}", opt(mur), opt(flag), (code == 202 && SEQB[seq_b % SEQB.len()].1) as u8, stp as u8, lines.iter().map(|l| h(l)).collect::<Vec<_>>().join(" ")),
             format!("{rej} {ret} {cov} {stp} {}", ms(&method)));
     }
     if rep.samples.len() < 6 && (erej || eret) { rep.sample(json!({"type": code, "lines72": lines, "mur": mur, "flag119": flag, "method": method})); }
@@ -106,7 +109,7 @@ pub fn run(o: &Opts) -> Report {
         let w = &r["witness"];
         let lines: Vec<String> = w["lines72"].as_array().map(|a| a.iter().filter_map(|x| x.as_str().map(String::from)).collect()).unwrap_or_default();
         let lr: Vec<&str> = lines.iter().map(|s| s.as_str()).collect();
-        run_one(&mut rep, &plugins, w["type"].as_u64().unwrap_or(103) as u32, &lr, w["mur"].as_str(), w["flag119"].as_str(), w["seq_b"].as_bool().unwrap_or(false), w["b23"].as_str().unwrap_or("CRED"), w["with56"].as_bool().unwrap_or(false));
+        run_one(&mut rep, &plugins, w["type"].as_u64().unwrap_or(103) as u32, &lr, w["mur"].as_str(), w["flag119"].as_str(), w["seq_b"].as_u64().unwrap_or(0) as usize, w["b23"].as_str().unwrap_or("CRED"), w["with56"].as_bool().unwrap_or(false));
         return rep;
     }
     let mut rng = Rng::new(o.seed ^ 0x17);
@@ -116,7 +119,7 @@ pub fn run(o: &Opts) -> Report {
             for mur in MURS {
                 for flag in FLAGS {
                     if !o.thorough() && rng.below(3) != 0 && mur.is_some() && flag.is_some() { continue; }
-                    run_one(&mut rep, &plugins, code, &[l], *mur, *flag, false, "CRED", false);
+                    run_one(&mut rep, &plugins, code, &[l], *mur, *flag, 0, "CRED", false);
                 }
             }
         }
@@ -125,7 +128,7 @@ pub fn run(o: &Opts) -> Report {
             let k = rng.range(0, 4);
             let lines: Vec<&str> = (0..k).map(|_| *rng.pick(LINES)).collect();
             let b23 = *rng.pick(&["CRED", "SPRI", "SSTD", "SPAY", "CRTS"]);
-            run_one(&mut rep, &plugins, code, &lines, *rng.pick(MURS), *rng.pick(FLAGS), rng.below(2) == 0, b23, rng.below(3) == 0);
+            run_one(&mut rep, &plugins, code, &lines, *rng.pick(MURS), *rng.pick(FLAGS), if code == 202 { rng.below(SEQB.len()) } else { 0 }, b23, rng.below(3) == 0);
         }
     }
     rep
